@@ -67,6 +67,9 @@ def _polys(rng, tier):
     d = 0.12
     la, ln = centres[0]
     out.append([[(la + d, ln - d), (la + d, ln + d), (la - d, ln + d), (la - d, ln - d)]])
+    # degenerate polygons: an outer loop without vertices (0, 1, 2 holes), and holes without vertices
+    hole = [(0.21, 0.5), (0.2, 0.51), (0.19, 0.5)]
+    out += [[[]], [[], hole], [[], hole, []], [[(0.3, 0.4), (0.3, 0.6), (0.1, 0.5)], [], hole]]
     return out
 
 
